@@ -293,22 +293,38 @@ def particle_number_measurement(
     )
 
     if shots is None:
+        # NOTE: A state with postselected (i.e., already measured) modes is not
+        # normalized, its norm is the probability of the previous outcomes. The
+        # frequency of a branch is the probability of the current outcome conditioned
+        # on the previous ones, hence the division by the norm.
+        norm = state.norm if state._is_postselected() else 1.0
+
         if marginal_sampling:
-            probabilities = state.get_marginal_fock_probabilities(modes=modes)
+            # NOTE: The simulator filters out the modes that are already measured, so
+            # the modes need to be mapped to the actual modes of the state.
+            original_modes = map_to_original_modes(modes, postselected_modes)
+
+            probabilities = state.get_marginal_fock_probabilities(modes=original_modes)
 
             return [
                 Branch(
                     state=state._copy_with_postselection(modes, outcome),
                     outcome=outcome,
-                    frequency=probability,
+                    frequency=probability / norm,
                 )
                 for outcome, probability in probabilities.items()
             ]
 
         probabilities = state.fock_probabilities_map
 
+        # NOTE: All the modes are measured here, but the outcome should follow the
+        # order of the modes specified in the instruction.
         return [
-            Branch(state=None, outcome=outcome, frequency=probability)
+            Branch(
+                state=None,
+                outcome=tuple(outcome[mode] for mode in modes),
+                frequency=probability / norm,
+            )
             for outcome, probability in probabilities.items()
         ]
 
@@ -391,8 +407,14 @@ def particle_number_measurement(
             binned_samples=binned_samples,
         )
 
+    # NOTE: All the modes are measured here, but the outcome should follow the order
+    # of the modes specified in the instruction.
     branches = [
-        Branch(state=None, outcome=outcome, frequency=Fraction(multiplicity, shots))
+        Branch(
+            state=None,
+            outcome=tuple(outcome[mode] for mode in modes),
+            frequency=Fraction(multiplicity, shots),
+        )
         for outcome, multiplicity in binned_samples.items()
     ]
 
